@@ -500,6 +500,13 @@ class Machine:
             return d, list(md.items())
         if form == "omd":
             return OrderedMultiDict(rp), mp
+        if form == "iterpairs":        # a one-shot iterator, not a sequence
+            return iter(rp), mp
+        if form == "itemsobj":         # anything with .items() (documented)
+            class HasItems:
+                def items(self_):
+                    return list(rp)
+            return HasItems(), mp
         raise ValueError(form)
 
     def apply(self, op):
